@@ -592,18 +592,24 @@ theorem SI_release {c : Conn} (h : SI c) : SI (release c) := by
   · exact h
 
 theorem SI_addUserHandlers {c : Conn} (h : SI c) :
-    SI (addTimed (addHandler c .userAll 0 none none none true) .userTimed 1000 true) := by
+    SI (addTimed (addIdHandler (addHandler c .userAll 0 none none none true) .userAll (b "uid1") true)
+      .userTimed 1000 true) := by
   refine ⟨by simpa using h.1, ?_⟩
   rcases h.2 with ci | iv
-  · refine .inl (CI.addTimed ⟨by simpa using ci.st, by simpa using ci.q, ?_, by simpa using ci.ids, by simpa using ci.tm,
+  · refine .inl (CI.addTimed ⟨by simpa using ci.st, by simpa using ci.q, ?_, ?_, by simpa using ci.tm,
       by simpa using ci.oh, by simpa using ci.en, by simpa using ci.a0, by simpa using ci.o0, by simpa using ci.sec,
       by simpa using ci.txN, by simpa using ci.smN⟩ _ _ _ (by simp))
-    intro x hx
-    rcases mem_addHandler hx with hx | ⟨hx, _⟩
-    · exact ci.hs x hx
-    · subst hx; simp
-  · exact .inr (Inv_addTimed (Inv_addHandler iv .userAll 0 none none none true (by simp [isF]) (by simp [isT])
-      (by simp [isS]) (by simp [isLate]) (by simp)) _ _ _ (by simp))
+    · intro x hx
+      rcases mem_addHandler (by simpa using hx) with hx | ⟨hx, _⟩
+      · exact ci.hs x hx
+      · subst hx; simp
+    · intro x hx
+      rcases mem_addIdHandler hx with hx | ⟨hx, _⟩
+      · exact ci.ids x (by simpa using hx)
+      · exact hx
+  · exact .inr (Inv_addTimed (Inv_addIdHandler (Inv_addHandler iv .userAll 0 none none none true (by simp [isF])
+      (by simp [isT]) (by simp [isS]) (by simp [isLate]) (by simp)) .userAll (b "uid1") true rfl (by simp [isLate])
+      (by simp)) _ _ _ (by simp))
 
 theorem SI_step {c : Conn} (h : SI c) (op : Op)
     (hu : match op with | .usend it | .uraw it | .urawstr it => it.isUserItem = true | _ => True) :
